@@ -240,6 +240,67 @@ theorem conditional_precedence (cur : Str) (mt : Nat) (h : CondHdrs) :
     simp [makeResponse, rfcPrecondition] <;>
     (repeat' split) <;> simp_all <;> omega
 
+/-! ## Part 1b — the file changes between `stat()` and `open()` -/
+
+/-- the source (re-read on every run) still replaces the path `stat()` by the `fstat()` of the
+opened descriptor unconditionally -/
+theorem fstat_always_adopted : Gen.C15.fstatAlwaysAdopted = true := by decide
+
+/-- **One version of the file.**  Let the file be rewritten in place, replaced or deleted between
+`_make_response`'s `stat()` and its `open()`: whatever version `open()` finds (any content, any
+size, any mtime — unrelated to what `stat()` saw), a GET answer is self-consistent *with respect
+to that opened version*: 200 with its length and all its bytes; 206 with `first ≤ last <` its
+size, `Content-Range: first-last/`its size and exactly its bytes `first..last`; 416 with `*/`its
+size; or 304/412 decided from the earlier validators; a vanished file gives 404 with no body.
+Nothing in status, Content-Range, Content-Length or body depends on the stale `stat()`. -/
+theorem race_response_consistent (cs : Nat) (hcs : 0 < cs) (curPre : Str) (mtPre sizePre : Nat) (h : CondHdrs)
+    (rng : Option Str) (atOpen : Option (Bytes × Nat)) :
+    let r := fileResponseRace true cs false curPre mtPre sizePre h rng atOpen
+    (match atOpen with
+     | none => r.status = 404 ∧ r.body = []
+     | some (content, _) =>
+        (r.status = 200 ∧ r.contentRange = .absent ∧ r.contentLength = some (content.length : Int) ∧
+          r.body = content) ∨
+        (r.status = 206 ∧ ∃ first last, first ≤ last ∧ last < content.length ∧
+          r.contentRange = .range first last content.length ∧
+          r.contentLength = some ((last - first + 1 : Nat) : Int) ∧
+          r.body = (content.drop first).take (last - first + 1)) ∨
+        (r.status = 416 ∧ r.contentRange = .unsat content.length ∧ r.body = [])) ∨
+    ((r.status = 304 ∨ r.status = 412) ∧ r.contentRange = .absent ∧ r.body = []) := by
+  intro r
+  simp only [r, fileResponseRace]
+  cases makeResponse curPre mtPre h with
+  | precondFailed => right; simp [Gen.C15.stPrecondFailed]
+  | notModified => right; simp [Gen.C15.stNotModified]
+  | send =>
+    left
+    cases atOpen with
+    | none => simp [Gen.C15.stNotFound]
+    | some v =>
+      obtain ⟨content, mt⟩ := v
+      simp only [if_true]
+      rcases prepare_cases false (ifRangeOk mt h) rng content.length with hp | hp | ⟨f, l, hfl, hl, hp⟩
+      · left
+        simp only [hp, sendBytes_full cs hcs]
+        simp [fullPlan]
+      · right; right
+        simp only [hp]
+        simp [unsatPlan, sendBytes]
+      · right; left
+        simp only [hp, sendBytes_partial cs hcs]
+        exact ⟨rfl, f, l, hfl, hl, rfl, rfl, rfl⟩
+
+/-- **Why the fstat must be adopted (counterexample for a model that keeps the stale stat).**
+A 10-byte file rewritten in place to 4 bytes inside the window: with the stale size the answer
+announces `Content-Length: 10` and carries 4 bytes; `bytes=-2` is answered
+`Content-Range: bytes 8-9/10` with no byte at all. -/
+theorem stale_stat_mixes_versions :
+    let r := fileResponseRace false 3 false [] 0 10 {} none (some ([1, 2, 3, 4], 5))
+    let r2 := fileResponseRace false 3 false [] 0 10 {} (some ((ascii "bytes=-2").map (·.toNat))) (some ([1, 2, 3, 4], 5))
+    r.status = 200 ∧ r.contentLength = some 10 ∧ r.body = [1, 2, 3, 4] ∧
+    r2.status = 206 ∧ r2.contentRange = .range 8 9 10 ∧ r2.body = [] := by
+  decide
+
 /-! ## Part 2 — confinement
 
 `fs : Fs` is an arbitrary function from absolute paths to what `lstat` finds there; nothing
